@@ -14,6 +14,9 @@ import Spydr.Verilog.RoundTripLeafF
 import Spydr.Verilog.RoundTripLeafI
 import Spydr.Verilog.RoundTripLeafJ
 import Spydr.Verilog.RoundTripHierE
+import Spydr.Verilog.RoundTripHierH
+import Spydr.Verilog.RoundTripHierI
+import Spydr.Verilog.WFWiresC
 
 #print axioms Spydr.Verilog.getWires_spec
 #print axioms Spydr.Verilog.getWires_spec_single_all
@@ -156,3 +159,23 @@ import Spydr.Verilog.RoundTripHierE
 #print axioms Spydr.Verilog.Elab.late_fold
 #print axioms Spydr.Verilog.Elab.elabDesign_hier
 #print axioms Spydr.Verilog.Elab.exHier_builds
+#print axioms Spydr.Verilog.Elab.late_facts
+#print axioms Spydr.Verilog.Elab.view_core
+#print axioms Spydr.Verilog.Elab.buildLateW_view
+#print axioms Spydr.Verilog.Elab.hier_fold
+#print axioms Spydr.Verilog.Elab.c04_view_hier
+#print axioms Spydr.Verilog.Elab.c04_ast_hier
+#print axioms Spydr.Verilog.Elab.exNetH_frag
+#print axioms Spydr.Verilog.Elab.topGo_work
+#print axioms Spydr.Verilog.Elab.parse_hier
+#print axioms Spydr.Verilog.Elab.composeV_text_hier
+#print axioms Spydr.Verilog.Elab.chars_filePH
+#print axioms Spydr.Verilog.Elab.c04_text_hier
+#print axioms Spydr.Verilog.Elab.exNetH_struct
+#print axioms Spydr.Verilog.Elab.exNetH_roundtrip
+#print axioms Spydr.Verilog.Elab.createOrUpdateCable_ww
+#print axioms Spydr.Verilog.Elab.elabDesign_ww
+#print axioms Spydr.Verilog.Elab.reader_wiresWF
+#print axioms Spydr.Verilog.Elab.elab_wiresWF
+#print axioms Spydr.Verilog.Elab.exNet_wiresWF
+#print axioms Spydr.Verilog.Elab.unnamed_port_on_declared
